@@ -1,10 +1,10 @@
-from translators import t3_legend
+from translators import t3_legend, t_lsp_pico
 
 ID = "C21"
 TITLE = "Language-server answers match a fresh server on the same contents"
-TRANSLATORS = [t3_legend.translate]   # drv_lsp links Gen/Legend.lean
+TRANSLATORS = [t3_legend.translate, t_lsp_pico.translate]   # drv_lsp links Gen/Legend.lean
 LEAN_MODULES = ["IsoVerif.Props.C21"]
-THEOREMS = ["IsoVerif.Props.C21.C21_maps", "IsoVerif.Props.C21.C21_effective",
+THEOREMS = ["IsoVerif.Props.C21.C21_maps", "IsoVerif.Props.C21.C21_effective", "IsoVerif.Props.C21.C21",
             "IsoVerif.Props.C21.C21_witness_stale_after_first_open", "IsoVerif.Props.C21.C21_partial",
             "IsoVerif.Props.C21.C21_stale_characterised"]
 HARNESS = ("hx_lsp", {"HX_ENGINE": "lspstate"})
@@ -14,15 +14,16 @@ TECHNIQUE = ("Lean 4 theorems by induction over notification/edit/request histor
              "correspondence: a real LspState is driven through the same histories (didOpen/didChange/didClose handlers, update_sources for disk edits) and after every step "
              "every answer is compared with a freshly constructed real server")
 LEVEL_TEXT = ("Kernel-checked, for every history of open/change/close notifications, on-disk edits and requests: the server's maps denote the same effective contents as a fresh "
-              "server on the final disk and final open buffers (C21_maps, C21_effective). What the running server answers from equals that whenever no request precedes the first "
-              "buffer notification (C21_partial); otherwise it can only err by answering a path memoised before that notification from its disk text (C21_stale_characterised) — "
-              "the property is false on the unchanged code (C21_witness_stale_after_first_open, replayed against the real server on every run). Tie: the model's prediction of the "
-              "contents the real server answers from (stale ones included) is compared per step with read_iso_literals_source_from_relative_path, and diagnostics, semantic tokens, "
-              "formatting, hover and go-to-definition of the running real server are compared with a fresh real server on the same disk and buffers.")
+              "server on the final disk and final open buffers (C21_maps, C21_effective), and what the running server answers from equals that (C21) provided pico tracks reads of "
+              "absent singletons — a fact regenerated from pico's get_impl on every run (translator t_lsp_pico; true since fix 79c6822). Without it the statement is false "
+              "(C21_witness_stale_after_first_open, the original F1 behaviour; its history is replayed against the real server on every run), holds only when no request precedes the "
+              "first buffer notification (C21_partial), and the only possible error is answering from the disk text of an open file (C21_stale_characterised). Tie: the model's prediction "
+              "of the contents the real server answers from is compared per step with read_iso_literals_source_from_relative_path, and diagnostics, semantic tokens, formatting, hover and "
+              "go-to-definition of the running real server are compared with a fresh real server on the same disk and buffers.")
 LEVEL_NOTE = ("Trusted: Lean kernel; the hand model of the tracked-field counter / memo interaction (pico view.rs, read_iso_literals_source), validated by correspondence only; "
               "that every answer is a function of the contents answered from is C01 + compiler determinism and is tied here by the per-step comparison with a fresh real server, "
               "not by a Lean theorem; watcher events are assumed delivered one per changed path (C20's DeliversAll).")
-PARTIAL = ["OPEN FINDING stale-after-first-open (pico F1 through the OpenFileMap counter): C21_statement is proved only for histories without a request before the first buffer notification",
+PARTIAL = ["OPEN FINDING panic-after-disk-remove (pico F22): after an on-disk removal the running server's diagnostics pass can panic where a fresh server answers; panics are outside the Lean model (the harness restarts the server and the model's memo layer)",
            "OPEN FINDING fresh-servers-disagree: with duplicate erroneous declarations the diagnostics of two fresh servers differ (hash-map order); outside the Lean model",
            "start-up with no source file at all (the IsoLiteralMap counter then has the same first-write defect) is excluded from model and generator",
            "a semantic-token request for a path the server does not know panics inside the memoised function; such requests are not issued",
@@ -49,8 +50,6 @@ def check_distribution(dist, cases):
         return "no check step generated"
     if dist.get("class:check:agree", 0) * 5 < checks:
         return f"only {dist.get('class:check:agree', 0)}/{checks} checks agree"
-    if dist.get("class:check:differ", 0) == 0:
-        return "no history reached the stale-after-first-open scenario"
     for op in ("open", "change", "close", "write", "remove"):
         if dist.get("class:" + op, 0) == 0:
             return f"no {op} step generated"
